@@ -98,7 +98,7 @@ def marginal(o):
         return False
 
 
-def same_slicing(oA, oB):
+def same_slicing(oA, oB, lam=None, phi=None):
     """slicing and numbering never see a dimensional quantity: identical in every unit system"""
     if not oA.get("Pre") or not oB.get("Pre") or oA["Pre"][0].get("Panic") or oB["Pre"][0].get("Panic"):
         return None
@@ -113,6 +113,23 @@ def same_slicing(oA, oB):
         for na, nb in zip(pa["Nodes"], pb["Nodes"]):
             if abs(C.ffloat(na["T"]) - C.ffloat(nb["T"])) > Fr(1, 10 ** 12) or na["Dof"] != nb["Dof"]:
                 return "bar %s: slice node at t=%s / numbers %s in one unit system, t=%s / %s in the other" % (pa["ID"], na["T"], na["Dof"], nb["T"], nb["Dof"])
+            if lam is not None:
+                # what C09_a_bar_in_other_units_is_sliced_alike_and_carries_the_converted_loads states, observed on the code:
+                # coordinates x lam, nodal forces x phi, nodal moments x phi lam
+                ext_ = max([abs(C.ffloat(n_[k__])) for n_ in pa["Nodes"] for k__ in ("X", "Y")] + [0]) * lam
+                span_ = (abs(C.ffloat(pa["Nodes"][-1]["X"]) - C.ffloat(pa["Nodes"][0]["X"])) + abs(C.ffloat(pa["Nodes"][-1]["Y"]) - C.ffloat(pa["Nodes"][0]["Y"])))
+                fmag_ = sum(abs(C.ffloat(v)) for n_ in pa["Nodes"] for part_ in ("Ext", "Left", "Right") for v in n_[part_][:2])
+                for key in ("X", "Y"):
+                    a, b_ = C.ffloat(na[key]) * lam, C.ffloat(nb[key])
+                    if abs(a - b_) > Fr(1, 10 ** 11) * (abs(a) + abs(b_) + ext_):
+                        return "bar %s node t=%s: coordinate %s is %s, %s x %s expected" % (pa["ID"], na["T"], key, nb[key], na[key], lam)
+                for part in ("Ext", "Left", "Right"):
+                    for k_ in range(3):
+                        fac = phi * lam if k_ == 2 else phi
+                        a, b_ = C.ffloat(na[part][k_]) * fac, C.ffloat(nb[part][k_])
+                        scale = abs(a) + abs(b_) + fac * fmag_ * (span_ if k_ == 2 else 1)
+                        if abs(a - b_) > Fr(1, 10 ** 9) * scale:
+                            return "bar %s node t=%s: %s load component %d is %s, the original %s converted is %s" % (pa["ID"], na["T"], part.lower(), k_, nb[part][k_], na[part][k_], float(a))
     return None
 
 
@@ -133,7 +150,7 @@ def oracle(c, o):
         if cc["role"] != "units":
             continue
         what = "same structure in %s (lengths x %s, forces x %s)" % (cc["system"], cc["lam"], cc["phi"])
-        sl = same_slicing(oA, oB)
+        sl = same_slicing(oA, oB, Fr(cc["lam"]), Fr(cc["phi"]))
         if sl:
             fails.append("%s: %s" % (what, sl))
             continue
